@@ -240,8 +240,10 @@ def run_case(case):
             labels.append("inconclusive:stuck-in-" + phase[0])
         ctx = "%s run of %s on %d variables, distribution %r" % (case["kind"], case["algo"], n, mapping)
         if fatal:
-            return Outcome(False, "the orchestrator thread died: %s [%s]" % (fatal[0], ctx), nontrivial, labels,
-                           info={"kind": "fatal"})
+            # An agent thread that dies is a defect of its own (the directory's un-registration echo, fixed in
+            # 9f3bfa3 and pinned under C27, was found this way) but not a statement about which thread runs which
+            # callback: counted, and the callbacks recorded until then are still checked below.
+            labels.append("inconclusive:orchestrator-thread-died")
         # overlaps that involve only the two listed Orchestrator.start() call sites are part of that finding
         overlaps = [o for o in probes.overlaps
                     if not (o[0] == "orchestrator" and (o[3] == "api-caller" or "api-caller" in o[4]))]
